@@ -38,7 +38,7 @@ def check_safe(t, tz):
     if tz is None or t is None:
         return
     try:
-        pd.Timestamp(t, tz=tz)
+        pd.Timestamp(pd.Timestamp(t).strftime('%Y-%m-%d %H:%M:%S'), tz=tz)
     except Exception:
         raise Unsafe(str(t))
 
